@@ -1,5 +1,6 @@
 import YaqsModel.Basic.Parse
 import YaqsModel.Model.Born
+import YaqsModel.Model.WeakCounts
 /-!
   line protocol for the Born model
 
@@ -7,6 +8,7 @@ import YaqsModel.Model.Born
     measure <basis> <a> | l r e…                    →  p0 p1 scaleSq ; t…            |   dead        |  err ValueError
     mcall <L> <site>                                →  ok s0 s1 …                    |   err ValueError
     encode | b0 b1 …                                →  <key>
+    tally | k0 k1 …                                 →  k:c k:c … ; total      (histogram of `measure_shots`, insertion order)
 
   A site segment `l r e…` is a tensor of shape `(2, l, r)` in C order, every entry as two rationals `re im`.
   All bond matrices are zero-padded to the largest bond dimension of the request.
@@ -89,6 +91,12 @@ def handle (line : String) : String :=
   | [["encode"], bits] =>
     match parseAll? parseBit? bits with
     | some σ => toString (encode σ)
+    | none => "bad-op"
+  | [["tally"], keys] =>
+    match parseAll? (fun w => w.toNat?) keys with
+    | some ks =>
+      let cs := tally ks
+      joinWith " " (cs.map fun p => toString p.1 ++ ":" ++ toString p.2) ++ " ; " ++ toString (total cs)
     | none => "bad-op"
   | _ => "bad-op"
 
